@@ -297,7 +297,11 @@ fn fill(g: &mut Vec<String>, s: &Snapshot, i: usize, is_req: bool) {
 fn substitute_accept(data: &mut Vec<u8>, accept: &str) {
     let mut i = 0;
     while i + 28 <= data.len() {
-        if &data[i..i + 6] == b"ACCEPT" && data[i + 9..i + 28].iter().all(|b| *b == b'=') {
+        if &data[i..i + 6] == b"ACCEPT"
+            && data[i + 6].is_ascii_digit()
+            && data[i + 7].is_ascii_digit()
+            && data[i + 9..i + 28].iter().all(|b| *b == b'=')
+        {
             let nn = (data[i + 6] - b'0') as usize * 10 + (data[i + 7] - b'0') as usize;
             let c = data[i + 8];
             let mut a = accept.as_bytes().to_vec();
@@ -576,7 +580,41 @@ pub fn run_request_key_stats(f: &[&str]) -> String {
         }
         minpos = minpos.min(seen.iter().filter(|x| **x).count());
     }
-    let repeated = keys.iter().filter(|k| k.len() == 24 && (k[0..4] == k[4..8] || k[4..8] == k[8..12] || k[0..8] == k[8..16])).count();
+    // decode (standard alphabet) and look for structure inside one key: repeated 4-byte or 8-byte words, constant bytes
+    let dec = |c: u8| -> u32 {
+        match c {
+            b'A'..=b'Z' => (c - b'A') as u32,
+            b'a'..=b'z' => (c - b'a' + 26) as u32,
+            b'0'..=b'9' => (c - b'0' + 52) as u32,
+            b'+' => 62,
+            b'/' => 63,
+            _ => 0,
+        }
+    };
+    let raw_of = |k: &Vec<u8>| -> Vec<u8> {
+        let mut out = vec![];
+        for q in k.chunks(4) {
+            if q.len() < 4 {
+                break;
+            }
+            let v = (dec(q[0]) << 18) | (dec(q[1]) << 12) | (dec(q[2]) << 6) | dec(q[3]);
+            out.push((v >> 16) as u8);
+            out.push((v >> 8) as u8);
+            out.push(v as u8);
+        }
+        out.truncate(16);
+        out
+    };
+    let repeated = keys
+        .iter()
+        .filter(|k| {
+            if k.len() != 24 {
+                return false;
+            }
+            let r = raw_of(k);
+            r.len() == 16 && (r[0..4] == r[4..8] || r[4..8] == r[8..12] || r[8..12] == r[12..16] || r[0..8] == r[8..16] || r.iter().all(|b| *b == r[0]))
+        })
+        .count();
     format!("requests={} distinct={} wellformed16={} minposvals={} repeated={}", n, sorted.len(), ok16, minpos, repeated)
 }
 
